@@ -29,6 +29,17 @@ void outf(const char * fmt, ...) __attribute__((format(printf, 1, 2)));
 void out_end(void);                         /* terminate + flush the line */
 void h_stop(const char * kind);             /* print "STOP kind", end script */
 
+/*
+ * Callback contexts.  Every context pointer ("priv") the harness hands to the
+ * library is the address of one of these cookies, a different one per
+ * registration, and the callback it belongs to checks that it received exactly
+ * that one: a library that drops, nulls or mixes up the caller's context is
+ * stopped at the first call ("STOP bad-priv").
+ */
+extern const int h_cookie[16];
+#define H_PRIV(k) ((void *)&h_cookie[k])
+void h_priv_check(const void * p, int k);
+
 /* parsing: decimal, "M" = SIZE_MAX, "M-k" = SIZE_MAX-k */
 size_t h_size(const char * s);
 long long h_int(const char * s);
